@@ -26,6 +26,7 @@
     `<p>` + the HTML-escaped text + `</p>\n` (`C14_prose_line`, `C14_prose`, `C14_prose_verbatim`).
 -/
 import Mistletoe.Proofs.Inert
+import Mistletoe.Model.Config
 import Mistletoe.Proofs.InertInline
 namespace Mistletoe.Props.C14
 open Mistletoe Mistletoe.Py Mistletoe.Scan Mistletoe.Block
@@ -587,5 +588,30 @@ example : Document.parse cfgHtml 14 (L "  a_b_c * d - 3.14) x | y # z\n1.5 is + 
                                .rawText (L "c < d <, \"e\"! ![ x")] 1], footnotes := [] } :=
   (C14_prose_text cfgHtml (by decide) htmlSpanTypes_inert (by decide) prose (by decide) (by decide +kernel)
     prose_lines_ok prose_text_ok 0).1
+
+
+/-! ### The configurations of the working tree are covered
+
+  `defaultTypes` / `markdownTypes` above are literals; the lists the bundled renderers really install are
+  regenerated from /repo on every run (`Gen/RenderMaps.lean` → `Model/Config.lean`).  These theorems are
+  re-checked against the regenerated lists, so a change to the token lists of the working tree that takes
+  them outside what the C14 theorems cover breaks an obligation. -/
+
+/-- the block-token lists installed by `HtmlRenderer` and `MarkdownRenderer` are the literals used above -/
+theorem C14_config_current :
+    Config.html.map (·.block.types) = some defaultTypes ∧
+    Config.markdown.map (·.block.types) = some markdownTypes := by decide +kernel
+
+/-- every span-token list of those configurations consists of inert classes, with `LineBreak` exactly
+    once, and `Paragraph` is a block type: the hypotheses `hpar`, `ht`, `hc` of `C14_prose` hold for them -/
+theorem C14_config_covered : ∀ cfg, (Config.html = some cfg ∨ Config.markdown = some cfg ∨ Config.default = some cfg) →
+    .paragraph ∈ cfg.block.types ∧ (∀ t ∈ cfg.span, inertClass t = true) ∧ cfg.span.count .lineBreak = 1 := by
+  have h : ∀ o ∈ [Config.html, Config.markdown, Config.default], ∀ cfg, o = some cfg →
+      (cfg.block.types.contains .paragraph && cfg.span.all inertClass && cfg.span.count .lineBreak == 1) = true := by
+    decide +kernel
+  intro cfg hc
+  have := h (some cfg) (by rcases hc with hc | hc | hc <;> simp [hc]) cfg rfl
+  simp only [Bool.and_eq_true, List.contains_iff_mem, List.all_eq_true, beq_iff_eq] at this
+  exact ⟨this.1.1, this.1.2, this.2⟩
 
 end Mistletoe.Props.C14
